@@ -111,18 +111,19 @@ class ExplorerScriptSsbDecompiler:
         raw_routine_backup_ops = deepcopy(self._routine_ops)
 
         # Step 1: Build labels
+        # (into a local list: self._routine_ops stays what the caller gave us, convert() can be called again)
         resolver = OpsLabelJumpToResolver(self._routine_ops)
-        self._routine_ops = list(resolver)
+        routine_ops = list(resolver)
         has_any_calls = any(
             any(isinstance(op, SsbLabelJump) and any(isinstance(x, CallJump) for x in op.markers) for op in rtn)
-            for rtn in self._routine_ops
+            for rtn in routine_ops
         )
 
         # Step 2: Build and optimize execution graph
         logger.debug("Building base graph...")
         try:
             # If we have any calls, we disable the optimization that stops at ending opcodes.
-            grapher = SsbGraphMinimizer(self._routine_ops, not has_any_calls)
+            grapher = SsbGraphMinimizer(routine_ops, not has_any_calls)
             logger.debug("Built base graph...")
             # Remove redundant labels
             grapher.optimize_paths()
@@ -155,7 +156,6 @@ class ExplorerScriptSsbDecompiler:
         except Exception:
             # If an assertion failed or any other error was raised, then either there is a bug in the decompiler or the
             # script is not valid, ie. has no ending opcode at the end of routines. Try to fallback to SsbScript.
-            self._routine_ops = raw_routine_backup_ops
             logger.warning("Failed to decompile. Falling back to SsbScript...")
             prefix = "//?: is-ssb-script: true\n"
             prefix += "// WARNING:\n"
@@ -171,7 +171,7 @@ class ExplorerScriptSsbDecompiler:
 
             ssb_script_decompiler = SsbScriptSsbDecompiler(
                 self._routine_infos,
-                self._routine_ops,
+                raw_routine_backup_ops,
                 self._raw_named_coroutines,
             )
 
